@@ -232,6 +232,9 @@ func TestVerif_C28_RetryPolicy(t *testing.T) {
 					if last.ConnKilled {
 						continue
 					}
+					if run.CloseAtUs >= 0 && r.EndUs >= run.CloseAtUs {
+						continue // Close ran while the call was pending: the reply may be replaced by ErrClosing (C04)
+					}
 					switch last.Outcome {
 					case "err":
 						var re *rueidis.RedisError
